@@ -638,6 +638,10 @@ def correspondence(ctx):
                              'direction': [0.25, 0.25, 0.5], 'p': 0.125},
                          [np.zeros(m, dtype='uint8'), np.zeros(m + 1, dtype='uint8')], f'non-css:{dname}')
     streams.append(s.run())
+
+    # --- internals of the union-find decoder (uf_support.py) against Model/UnionFind.lean, step by step
+    from harness import uf_internals
+    streams.extend(uf_internals.streams(ctx))
     return streams
 
 
